@@ -8,7 +8,7 @@ import ast
 
 from ..core import AnchorError, call_name, decorators, norm, short, own_nodes, kwarg, FUNC_TYPES
 from ..cfg import cfg_of
-from ..lib import calls_in, stmts_in, gate, must_pass, node_has, params, attr_stores, effective_body
+from ..lib import calls_in, stmts_in, gate, must_pass, node_has, params, attr_stores, effective_body, xnorm, decision_table
 
 PROJ = 'jedi.api.project'
 
@@ -16,6 +16,16 @@ PROJ = 'jedi.api.project'
 def _ctor_keywords(init):
     a = init.args
     return [x.arg for x in a.args[1:]] + [x.arg for x in a.kwonlyargs]
+
+
+def _const_strings(repo, func, e):
+    """the string constants of a tuple/list/set display, directly or through a module-level name bound to one"""
+    if isinstance(e, ast.Name):
+        b = repo.toplevel(func._mod.name, e.id) if getattr(func, '_mod', None) is not None else None
+        e = getattr(b, 'value', None)
+    if isinstance(e, (ast.Tuple, ast.List, ast.Set)) and all(isinstance(x, ast.Constant) and isinstance(x.value, str) for x in e.elts):
+        return [x.value for x in e.elts]
+    return None
 
 
 def rule_a(repo, chk):
@@ -35,25 +45,42 @@ def rule_a(repo, chk):
             if isinstance(x, ast.Attribute) and isinstance(x.ctx, ast.Store) and isinstance(x.value, ast.Name) and x.value.id == 'project' and m.name == PROJ:
                 attrs.add(x.attr)
     save = ci.methods['save']
+    # keys left out of the file: popped from the copy, or excluded by a membership test of the KEY in the comprehension that builds
+    # the data (both spellings of "not serialised"); a filter on anything else (the value!) loses falsy settings
     popped = {c.args[0].value for c in calls_in(save, 'pop') if c.args and isinstance(c.args[0], ast.Constant)}
-    class_level = set(ci.attrs)      # class attributes are not in __dict__ unless assigned on the instance
-    written = {a.lstrip('_') for a in attrs if a not in popped}
-    chk.ob('C20.a', written == kws, save, 'keys written by save() == keyword parameters of __init__', 'written only: %s; accepted only: %s' % (sorted(written - kws), sorted(kws - written)))
-    for p in sorted(popped):
-        chk.ob('C20.a', p.lstrip('_') not in kws, save, 'popped key %r is not a constructor setting' % p)
-    d0 = [s for s in stmts_in(save, ast.Assign) if norm(s.value) == 'dict(self.__dict__)' and isinstance(s.targets[0], ast.Name)]
-    ok = len(d0) == 1
-    if ok:
-        v0 = d0[0].targets[0].id
-        # what is dumped derives from that copy: `data` is it, or a comprehension over its items()
-        dd = [s for s in stmts_in(save, ast.Assign) if norm(s.targets[0]) == 'data']
-        ok = v0 == 'data' or any(isinstance(s.value, (ast.DictComp,)) and norm(s.value.generators[0].iter) == v0 + '.items()' for s in dd)
-        ok = ok and all(norm(c.func.value) == v0 for c in calls_in(save, 'pop'))
-    chk.ob('C20.a', ok, save, 'save() starts from a copy of the instance dictionary')
     comp = [s for s in stmts_in(save, ast.Assign) if norm(s.targets[0]) == 'data' and isinstance(s.value, ast.DictComp)]
-    ok = len(comp) == 1 and not comp[0].value.generators[0].ifs and norm(comp[0].value.key) == "k.lstrip('_')" and norm(comp[0].value.value) == 'v'
-    chk.ob('C20.a', ok, save, 'every entry is written under its name without leading underscores, unfiltered (falsy settings such as smart_sys_path=False survive)',
-           short(comp[0]) if comp else '')
+    excluded, other_filters = set(), []
+    for cst in comp:
+        g0 = cst.value.generators[0]
+        kvar = g0.target.elts[0].id if isinstance(g0.target, ast.Tuple) and len(g0.target.elts) == 2 and isinstance(g0.target.elts[0], ast.Name) else None
+        for t in g0.ifs:
+            consts = None
+            if isinstance(t, ast.Compare) and len(t.ops) == 1 and isinstance(t.ops[0], ast.NotIn) and isinstance(t.left, ast.Name) and t.left.id == kvar:
+                consts = _const_strings(repo, save, t.comparators[0])
+            elif isinstance(t, ast.Compare) and len(t.ops) == 1 and isinstance(t.ops[0], ast.NotEq) and isinstance(t.left, ast.Name) and t.left.id == kvar \
+                    and isinstance(t.comparators[0], ast.Constant):
+                consts = [t.comparators[0].value]
+            if consts is None:
+                other_filters.append(norm(t))
+            else:
+                excluded |= set(consts)
+    left_out = popped | excluded
+    class_level = set(ci.attrs)      # class attributes are not in __dict__ unless assigned on the instance
+    written = {a.lstrip('_') for a in attrs if a not in left_out}
+    chk.ob('C20.a', written == kws, save, 'keys written by save() == keyword parameters of __init__', 'written only: %s; accepted only: %s' % (sorted(written - kws), sorted(kws - written)))
+    for p in sorted(left_out):
+        chk.ob('C20.a', p.lstrip('_') not in kws, save, 'left-out key %r is not a constructor setting' % p)
+    # what is dumped derives from the instance dictionary, which save() only reads: a copy that is popped from, or a comprehension
+    # over the items of the dictionary / of the copy
+    d0 = [s for s in stmts_in(save, ast.Assign) if norm(s.value) == 'dict(self.__dict__)' and isinstance(s.targets[0], ast.Name)]
+    v0 = d0[0].targets[0].id if len(d0) == 1 else None
+    src_ok = len(comp) == 1 and norm(comp[0].value.generators[0].iter) in ((v0 + '.items()') if v0 else '', 'self.__dict__.items()')
+    ok = (src_ok or v0 == 'data') and all(norm(c.func.value) == v0 for c in calls_in(save, 'pop')) and len(d0) <= 1 and \
+        not [x for x in own_nodes(save) if isinstance(x, (ast.Subscript, ast.Attribute)) and isinstance(x.ctx, (ast.Store, ast.Del)) and 'self.__dict__' in norm(x)]
+    chk.ob('C20.a', ok, save, 'save() derives the data from the instance dictionary and only reads it (a copy is what keys are popped from)')
+    ok = len(comp) == 1 and not other_filters and norm(comp[0].value.key) == "k.lstrip('_')" and norm(comp[0].value.value) == 'v'
+    chk.ob('C20.a', ok, save, 'every entry is written under its name without leading underscores; nothing is filtered by value (falsy settings such as '
+           'smart_sys_path=False survive)', (short(comp[0]) if comp else '') + (' filters: %s' % other_filters if other_filters else ''))
     dump = calls_in(save, 'dump')
     ok = len(dump) == 1 and norm(dump[0].args[0]) == '(_SERIALIZER_VERSION, data)'
     chk.ob('C20.a', ok, save, 'what is dumped is (_SERIALIZER_VERSION, data)')
@@ -132,11 +159,8 @@ def rule_c(repo, chk):
                         'buildout paths and the buffer\'s ancestor directories inside the project')
     f = repo.find(PROJ, 'Project._get_sys_path')
     rets = stmts_in(f, ast.Return)
-    ok = len(rets) == 1 and norm(rets[0].value) == 'list(_remove_duplicates_from_path(path))'
-    chk.ob('C20.c', ok, f, 'the result is list(_remove_duplicates_from_path(path))', short(rets[0]) if rets else '')
-    pa = [s for s in stmts_in(f, ast.Assign) if norm(s.targets[0]) == 'path']
-    ok = len(pa) == 1 and norm(pa[0].value) == 'prefixed + sys_path + suffixed'
-    chk.ob('C20.c', ok, f, 'path = prefixed + sys_path + suffixed (in this order)', short(pa[0]) if pa else '')
+    ok = len(rets) == 1 and xnorm(rets[0].value, f) == 'list(_remove_duplicates_from_path(prefixed + sys_path + suffixed))'
+    chk.ob('C20.c', ok, f, 'the result is list(_remove_duplicates_from_path(prefixed + sys_path + suffixed)) (in this order)', short(rets[0]) if rets else '')
     su = [s for s in stmts_in(f, ast.Assign) if norm(s.targets[0]) == 'suffixed']
     ok = len(su) == 1 and norm(su[0].value) == 'list(self.added_sys_path)'
     chk.ob('C20.c', ok, f, 'suffixed starts as a COPY of added_sys_path (extending it must not change the project setting)', short(su[0]) if su else '')
@@ -153,16 +177,26 @@ def rule_c(repo, chk):
         chk.ob('C20.c', w is None and norm(c.args[0]) == 'str(self._path)', c, 'the project directory is prepended only under smart_sys_path (or django)', w or norm(c.args[0]))
     chk.floor('C20.c', len(pre), 1)
     # ancestor walk: stops at the project dir by PATH relation (not by string prefix)
-    lp = [n for n in own_nodes(f) if isinstance(n, ast.For) and norm(n.iter) == 'inference_state.script_path.parents']
+    lp = [n for n in own_nodes(f) if isinstance(n, ast.For) and xnorm(n.iter, f) == 'inference_state.script_path.parents' and isinstance(n.target, ast.Name)]
     chk.ob('C20.c', len(lp) == 1, f, 'the buffer\'s ancestor directories are walked upward')
     if lp:
-        tests = [norm(x.test) for x in ast.walk(lp[0]) if isinstance(x, ast.If)]
-        ok = any(t == 'parent_path == self._path or self._path not in parent_path.parents' for t in tests)
-        chk.ob('C20.c', ok, lp[0], 'the walk stops at the project directory or as soon as the directory is not inside the project (path containment, not a string prefix)', str(tests))
-        brk = [x for x in ast.walk(lp[0]) if isinstance(x, ast.Break)]
-        chk.ob('C20.c', len(brk) == 1, lp[0], 'leaving the project ends the walk')
-        ok = any("joinpath('__init__.py').is_file()" in t and 'not add_init_paths' in t for t in tests)
-        chk.ob('C20.c', ok, lp[0], 'package directories (__init__.py) are skipped unless add_init_paths')
+        v = lp[0].target.id
+        c = cfg_of(f)
+        head = [n for n in c.nodes if n.kind == 'for' and n.ast is lp[0]]
+
+        def label(n):
+            if n.kind == 'stmt' and isinstance(n.ast, ast.Break):
+                return 'stop'
+            if n.kind == 'stmt' and isinstance(n.ast, ast.Expr) and isinstance(n.ast.value, ast.Call) and norm(n.ast.value.func).endswith('.append') \
+                    and norm(n.ast.value.args[0]) == 'str(%s)' % v:
+                return 'take'
+            return None
+        bad = decision_table(f, head[0], [('is_project', '%s == self._path' % v), ('inside', 'self._path in %s.parents' % v),
+                                          ('add_init', 'add_init_paths'), ('is_package', "%s.joinpath('__init__.py').is_file()" % v)],
+                             label, lambda t: 'stop' if t['is_project'] or not t['inside'] else ('<loop>' if t['is_package'] and not t['add_init'] else 'take'))
+        chk.ob('C20.c', not bad, lp[0], 'the walk stops at the project directory or as soon as the directory is not inside the project (path containment, '
+               'not a string prefix); below it package directories (__init__.py) are skipped unless add_init_paths and every other directory is '
+               'taken (decision table over 4 facts)', '; '.join(bad[:3]), key='ancestor-walk')
     ok = any(isinstance(s, ast.AugAssign) and norm(s.target) == 'suffixed' and norm(s.value) == 'reversed(traversed)' for s in stmts_in(f, ast.AugAssign))
     chk.ob('C20.c', ok, f, 'ancestor directories are appended after added_sys_path and buildout paths')
     d = repo.find(PROJ, '_remove_duplicates_from_path')
